@@ -84,7 +84,7 @@ func ApplyInclude(ctx context.Context, workingDir string, environment types.Mapp
 						r.ProjectDirectory = filepath.Dir(path)
 					case !filepath.IsAbs(r.ProjectDirectory):
 						relworkingdir = loader.Dir(r.ProjectDirectory)
-						r.ProjectDirectory = filepath.Join(workingDir, r.ProjectDirectory)
+						r.ProjectDirectory = options.localPath(workingDir, r.ProjectDirectory)
 
 					default:
 						relworkingdir = r.ProjectDirectory
@@ -120,7 +120,7 @@ func ApplyInclude(ctx context.Context, workingDir string, environment types.Mapp
 			envFile := []string{}
 			for _, f := range r.EnvFile {
 				if !filepath.IsAbs(f) {
-					f = filepath.Join(workingDir, f)
+					f = options.localPath(workingDir, f)
 					s, err := os.Stat(f)
 					if err != nil {
 						return err
@@ -160,6 +160,17 @@ func ApplyInclude(ctx context.Context, workingDir string, environment types.Mapp
 	}
 	delete(model, "include")
 	return nil
+}
+
+// localPath resolves a relative path of an include entry against the directory of the project being loaded: the
+// local resource loader knows it as an absolute path, whereas workingDir is relative for a nested include
+func (o *Options) localPath(workingDir, p string) string {
+	for _, loader := range o.ResourceLoaders {
+		if local, ok := loader.(localResourceLoader); ok {
+			return local.abs(p)
+		}
+	}
+	return filepath.Join(workingDir, p)
 }
 
 // importResources import into model all resources defined by imported, and report error on conflict
